@@ -135,6 +135,176 @@ FIXED = [
 ]
 
 
+
+# ------------------------------------------------------------------ the theorems of Props/C04Text.lean, instantiated on the real code
+NAMECH = 'abcXYZ019-_:.'
+ESCAPED = set('\\`*_{}[]()>#+-.!')
+
+
+class Inst:
+    """random instances of the hypotheses of C04_text_block_once / C04_text_end_to_end (grammar of Spec/HtmlFrag.lean)"""
+
+    def __init__(self, rng):
+        self.R = rng
+        self.BL = markdown.Markdown().block_level_elements
+
+    def name(self): return self.R.choice('abcdXY') + ''.join(self.R.choice(NAMECH) for _ in range(self.R.randint(0, 4)))
+    def sep(self): return ''.join(self.R.choice(' \n') for _ in range(self.R.randint(1, 3)))
+
+    def anystr(self, excl, n=6):
+        s = ''.join(self.R.choice(list('ab *_#<>&;"\'`/=-\n!?é,') + ['\n\n', '--', '<div>', '</div>', '&amp;']) for _ in range(self.R.randint(0, n)))
+        for e in excl: s = s.replace(e, '')
+        return s
+
+    def attr(self):
+        k = self.R.random(); n = self.name()
+        if k < .25: return self.sep() + n, 'none'
+        if k < .5: return self.sep() + n + '="' + self.anystr(['"']) + '"', 'dq'
+        if k < .75: return self.sep() + n + "='" + self.anystr(["'"]) + "'", 'sq'
+        return self.sep() + n + '=' + ''.join(self.R.choice(NAMECH) for _ in range(self.R.randint(1, 4))), 'bare'
+
+    def attrs(self):
+        l = [self.attr() for _ in range(self.R.choice([0, 0, 1, 2, 3]))]
+        return ''.join(a for a, _ in l), (l[-1][1] if l else None)
+
+    def trail(self): return ''.join(self.R.choice(' \n') for _ in range(self.R.choice([0, 0, 1, 2])))
+
+    def tagname(self, block=None):
+        while True:
+            n = self.R.choice(['div', 'p', 'span', 'b', 'a', 'table', 'pre', 'DIV', 'Span', 'h1', 'x-y', 'a:b', 'hr', 'br', 'img', 'section', 'ul', 'li', 'em',
+                               'code', 'blockquote', 'HR', 'Hr'] + [self.name()])
+            if n.lower() in ('script', 'style'): continue
+            if block is True and (n.lower() not in self.BL or n.lower() == 'hr'): continue
+            return n
+
+    def plain(self, n=8): return ''.join(self.R.choice(list('ab *_#>;"\'`/=-\n!?é,') + ['\n\n']) for _ in range(self.R.randint(0, n)))
+
+    def tok(self):
+        k = self.R.random()
+        if k < .25:
+            t = self.plain()
+            return ('text', t) if t else self.tok()
+        if k < .3:
+            # text with bare `&` / `<` (each followed by a character that cannot start a reference / tag, never last)
+            t = ''
+            for _ in range(self.R.randint(1, 3)):
+                t += self.plain(3) + self.R.choice(['& ', '< ', '&&\n', '<= ', '&.', '<3', '<<-', '&<;']) + self.R.choice(['', 'x', ' 1'])
+            return ('text', t + self.R.choice([' ', 'z', '\n']))
+        if k < .38: return ('ent', '&' + self.R.choice('abcXY') + ''.join(self.R.choice('abc019-.') for _ in range(self.R.randint(0, 4))) + ';')
+        if k < .46: return ('cref', '&#' + self.R.choice([''.join(self.R.choice('0123456789') for _ in range(self.R.randint(1, 4))),
+                                                           self.R.choice('xX') + ''.join(self.R.choice('0123456789abcdefABCDEF') for _ in range(self.R.randint(1, 4)))]) + ';')
+        if k < .56: return ('cmt', '<!--' + self.anystr(['--'], 8).replace('--', '') + '-->')
+        if k < .75:
+            a, _ = self.attrs(); return ('open', '<' + self.tagname() + a + self.trail() + '>')
+        if k < .92: return ('close', '</' + self.tagname() + '>')
+        a, last = self.attrs(); t = self.trail()
+        if last == 'bare' and not t: t = ' '
+        return ('self', '<' + self.tagname() + a + t + '/>')
+
+    @staticmethod
+    def stack_run(tag, toks):
+        import re
+        S = [tag]
+        for k, t in toks:
+            if k == 'open':
+                n = re.match(r'<([^\s/>]*)', t).group(1).lower()
+                if n != 'hr': S.insert(0, n)
+            elif k == 'close':
+                n = t[2:-1].lower()
+                if n in S:
+                    S2 = S[S.index(n) + 1:]
+                    if not S2: return None
+                    S = S2
+        return S
+
+    def block(self):
+        """(text of a block element satisfying toksOk / closesOk, its open tag, its tag name)"""
+        while True:
+            toks = []
+            for _ in range(self.R.randint(0, 6)):
+                t = self.tok()
+                if toks and toks[-1][0] == 'text' and t[0] == 'text': continue
+                toks.append(t)
+            tn = self.tagname(block=True)
+            S = self.stack_run(tn.lower(), toks)
+            if S is None or S[-1] != tn.lower() or tn.lower() in S[:-1]: continue
+            a, _ = self.attrs()
+            opn = '<' + tn + a + self.trail() + '>'
+            return opn + ''.join(t for _, t in toks) + '</' + tn + '>', opn, tn
+
+    def unit(self):
+        """a comment, processing instruction, declaration, <hr> (the instances of `Unit` in Lemmas/HtmlTokUnits.lean)"""
+        k = self.R.random()
+        if k < .3: return '<!--' + self.anystr(['--'], 8).replace('--', '') + '-->'
+        if k < .6:
+            b = self.anystr([], 8)
+            while '?>' in b: b = b.replace('?>', '')
+            return '<?' + b + '?>'
+        if k < .8: return self.R.choice(['<!DOCTYPE', '<!doctype']) + self.anystr(['>'], 8) + '>'
+        return self.R.choice(['<hr>', '<HR class="a">', '<hr />', '<div/>'])
+
+    def line_text(self):
+        while True:
+            t = ''.join(self.R.choice(list('ab c*_#>;"\'`/=-!?é,.()[]{}+\\1')) for _ in range(self.R.randint(1, 10)))
+            if t and not t[0].isspace() and not t[-1].isspace(): return t
+
+
+def esc_all(t): return ''.join('\\' + c if c in ESCAPED else c for c in t)
+def esc_cdata(t): return t.replace('&', '&amp;').replace('<', '&lt;').replace('>', '&gt;')
+def line_safe(l): return not any(c in l for c in '\n\x02\x03\r\t') and (l == '' or any(c != ' ' for c in l))
+
+
+def theorem_instances(rng, n, bump):
+    """C04_text_block_once and C04_text_end_to_end_para on the real code; returns violated instances"""
+    bad = []
+    g = Inst(rng)
+    for _ in range(n):
+        block, opn, tn = g.block()
+        p1, p2 = g.plain(), g.plain()
+        doc = p1 + '\n\n' + block + '\n\n' + p2
+        md = markdown.Markdown()
+        lines = HtmlBlockPreprocessor(md).run(doc.split('\n'))
+        stash = [str(x) for x in md.htmlStash.rawHtmlBlocks]
+        bump('thm:text_block_once')
+        if lines != (p1 + '\n\n\n' + STX + 'wzxhzdk:0' + ETX + '\n\n\n\n' + p2).split('\n') or stash != [block + '\n']:
+            bad.append({'op': 'theorem-instance C04_text_block_once', 'input': doc, 'model': None, 'impl': {'lines': lines, 'stash': stash}})
+        if all(line_safe(l) for l in block.split('\n')) and opn[1 + len(tn)] in ' >':
+            t1, t2 = g.line_text(), g.line_text()
+            doc2 = esc_all(t1) + '\n\n' + block + '\n\n' + esc_all(t2)
+            exp = '<p>' + esc_cdata(t1) + '</p>\n' + block + '\n\n<p>' + esc_cdata(t2) + '</p>'
+            real = markdown.markdown(doc2)
+            bump('thm:text_end_to_end_para')
+            if real != exp:
+                bad.append({'op': 'theorem-instance C04_text_end_to_end_para', 'input': doc2, 'model': exp, 'impl': real})
+        # C04_text_many_once: plain text or nothing, then 1..4 raw items (blocks and units) each followed by plain text
+        t0 = rng.choice(['', g.plain() + '\n\n'])
+        nsec = rng.randint(1, 4); doc3 = t0; exp3 = t0; want = []
+        for i in range(nsec):
+            if rng.random() < .6: T = g.block()[0]; lead = '\n'
+            else: T = g.unit(); lead = ''
+            tail = '\n\n' + g.plain() + ('' if i == nsec - 1 else '\n\n')
+            doc3 += T + tail; exp3 += lead + STX + 'wzxhzdk:%d' % i + ETX + '\n\n' + tail; want.append(T + '\n')
+        md = markdown.Markdown()
+        lines = HtmlBlockPreprocessor(md).run(doc3.split('\n'))
+        stash = [str(x) for x in md.htmlStash.rawHtmlBlocks]
+        bump('thm:text_many_once')
+        if lines != exp3.split('\n') or stash != want:
+            bad.append({'op': 'theorem-instance C04_text_many_once', 'input': doc3, 'model': {'lines': exp3.split('\n'), 'stash': want},
+                        'impl': {'lines': lines, 'stash': stash}})
+        # C04_text_end_to_end_anywhere / _unit_anywhere: paragraph before / after present or absent
+        T = block if rng.random() < .7 else g.unit()
+        if all(line_safe(l) for l in T.split('\n')) and (T is not block or opn[1 + len(tn)] in ' >') and not T.startswith('<div/') :
+            t1, t2 = g.line_text(), g.line_text()
+            bef, aft = rng.random() < .5, rng.random() < .5
+            doc4 = (esc_all(t1) + '\n\n' if bef else '') + T + ('\n\n' + esc_all(t2) if aft else '')
+            exp4 = ('<p>' + esc_cdata(t1) + '</p>\n' if bef else '') + T + ('\n\n<p>' + esc_cdata(t2) + '</p>' if aft else '')
+            bump('thm:text_end_to_end_anywhere')
+            real = markdown.markdown(doc4)
+            if real != exp4:
+                bad.append({'op': 'theorem-instance C04_text_end_to_end_anywhere', 'input': doc4, 'model': exp4, 'impl': real})
+    return bad
+
+
 def enc_events(evs):
     return '|'.join(CE.enc_event(e) for e in evs)
 
@@ -159,11 +329,11 @@ def run(driver, rng, n):
             seen.add(src); docs.append(src)
     reqs = []
     for src in docs:
-        reqs.append(('htmltok.events', enc_str(src))); reqs.append(('htmltok.extract', enc_str(src)))
+        reqs.append(('htmltok.events', enc_str(src))); reqs.append(('htmltok.extract', enc_str(src))); reqs.append(('htmltok.lex', enc_str(src)))
     ans = driver.ask_many(reqs)
     pre_md = markdown.Markdown()
     for k, src in enumerate(docs):
-        a_ev, a_ex = ans[2 * k], ans[2 * k + 1]
+        a_ev, a_ex, a_lex = ans[3 * k], ans[3 * k + 1], ans[3 * k + 2]
         cases += 1
         # the real thing: (1) recorded events, (2) the preprocessor itself on a fresh stash
         try:
@@ -182,6 +352,11 @@ def run(driver, rng, n):
             dis.append({'op': 'htmltok.ood-consistency', 'input': src, 'model': [a_ev[:40], a_ex[:40]], 'impl': None})
         if (mir is MT.OOD) != (a_ev == 'ood'):
             dis.append({'op': 'htmltok.mirror-domain', 'input': src, 'model': a_ev[:80], 'impl': 'mirror ' + ('ood' if mir is MT.OOD else 'in domain')})
+        if a_lex == '1':
+            bump('lex_accepts')
+            if '<' in src: bump('lex_accepts_with_lt')
+            if a_ev == 'ood':             # C04_text_domain_lex: never
+                dis.append({'op': 'htmltok.lex-implies-domain', 'input': src, 'model': 'lex=1, events=ood', 'impl': None})
         if a_ev == 'ood':
             bump('ood'); bump('ood:' + (kind_of(src, real_events) if real_events is not None else 'assert'))
             continue
@@ -219,6 +394,7 @@ def run(driver, rng, n):
         if go1 is not MT.OOD and go1[2]: bump('second_phase_lt_free')
         if len(samples) < 3 and len(real_stash) >= 1 and len(real_events) >= 6:
             samples.append({'source': src, 'events': [list(map(str, e)) for e in real_events], 'lines': real_lines, 'stash': real_stash})
+    dis += theorem_instances(rng, max(20, n // 10), bump)
     return {'cases': cases, 'distinct': len(seen), 'disagreements': dis, 'samples': samples, 'dist': dist}
 
 
